@@ -747,7 +747,7 @@ def explore_scenario(ctx, kind, variant, bound, max_runs, fine, extra_random=0):
         res0, _ = run_one(kind, variant, sched.fixed_chooser([]), fine)
         length = max(1, len(res0['schedule']))
         nthreads = len(expected)
-        for _ in range(extra_random or max_runs // 2):
+        for _ in range(extra_random or max_runs // 3):
             k = ctx.rng.randint(1, bound + 1)
             plan = {ctx.rng.randrange(length): ctx.rng.randrange(nthreads) for _ in range(k)}
             res, sc = run_one(kind, variant, sched.plan_chooser(plan), fine)
@@ -916,6 +916,7 @@ def run(ctx):
                 ctx.violation(*out['concrete'])
             for case, line, rep in failed[:3]:
                 refinement.append((case, line, rep, out['name']))
+    sched.mon_remove()
     ctx.extra['controlled_s'] = round(time.time() - t0, 1)
     for case, what in load_compare(ctx):
         ctx.violation(case, what)
